@@ -3,9 +3,30 @@
 OVERLAY = {"internal/rules/mechanisms/zz_verif_c11_test.go": "c11/c11_test.go",
            "internal/rules/mechanisms/zz_verif_c11_keys_test.go": "c11/c11_keys_test.go"}
 
+def _drift():
+    """layout drift report (never a verdict): on the first 150 cases of each stream, are the observed keys byte for byte the
+    ones of the modelled pre-image layout?  The check itself compares keys only up to renaming."""
+    import os
+    import vf
+    res = {}
+    for name, term in (("histories", "drift fx_all"), ("keys", "drift2 true true")):
+        try:
+            obs = vf.read_obs(os.path.join(vf.OUT, "C11", "obs_%s.jsonl" % name))[:150]
+            if not obs:
+                res[name] = "no observations"
+                continue
+            rows, sh, ok, _ = vf.eval_cases("C11", "Run.Eval_C11", term, [o["coq"] for o in obs], shard_size=50)
+            res[name] = {"cases": len(obs), "key_bytes_differ_from_modelled_layout": sum(1 for r in rows.values() if not r[0])} \
+                if ok == sh else "evaluation failed"
+        except Exception as ex:  # a report only
+            res[name] = "failed: %s" % ex
+    return {"key_layout_drift": res}
+
+
 P = {
     "id": "C11",
     "claimed": True,
+    "extra_coverage": _drift,
     "coq_targets": ["Properties/C11.vo", "Run/Eval_C11.vo"],
     "theorems_module": "Properties.C11",
     "theorems": ["C11_no_boundary_shift", "C11_F4_refuted", "C11_key_deterministic", "C11_F1_refuted",
